@@ -102,18 +102,7 @@ class Orc:
             for idx in (np.ndindex(*x.shape) if x.ndim else [()]):
                 out[idx] = self.name(x[idx], f"{label}_{'_'.join(map(str, idx))}")
             return out
-        if x.is_const() or (len(x.t) == 1 and x.deg() <= 1):
-            return x
-        if x.vars() & set(self.dom.inv_atoms):
-            return x
-        key = ("name", x)
-        if key in self.dom.cache:
-            return self.dom.cache[key]
-        self.k += 1
-        v, vid_ = self.dom.fresh(f"{label}__", ("name", x))
-        self.dom.hyp(v - x, f"def {label}")
-        self.dom.cache[key] = v
-        return v
+        return self.dom.name_poly(x, label)
 
     def inv(self, S, label="Sinv"):
         """matrix inverse (assumption: S nonsingular)"""
